@@ -877,6 +877,13 @@ where
             // Opens a new separate connection to the server, sends the backend_id
             // and secret_key and then closes it for security reasons. No other interactions
             // take place.
+            #[cfg(feature = "verif")]
+            {
+                let result = Server::cancel(&address, port, process_id, secret_key).await;
+                crate::vtrace!("cancel_done", "pid" => self.process_id, "ok" => result.is_ok());
+                return result;
+            }
+            #[cfg(not(feature = "verif"))]
             return Server::cancel(&address, port, process_id, secret_key).await;
         }
 
